@@ -46,6 +46,10 @@ def Key.lt (a b : Key) : Prop :=
 
 instance (a b : Key) : Decidable (Key.lt a b) := by unfold Key.lt; infer_instance
 
+/-- `uv__signal_compare(a, b)` as the three-way value the RB macros of tree.h consume; tied to the
+    C text and shown to be a strict total order in UvModel/GenEq/C13.lean -/
+def Key.cmp (a b : Key) : Int := if Key.lt a b then -1 else if Key.lt b a then 1 else 0
+
 /-- RB_INSERT reduced to its order -/
 def treeInsert (k : Key) : List Key → List Key
   | [] => [k]
